@@ -386,7 +386,8 @@ def tagged(ctx, arg, rec):
     from hypothesis import strategies as st
 
     profile, shard, n = arg
-    base = e2e.case_strategy(profile, max_ops=6 if profile != "luts" else 14, big=profile != "luts", small_arena=True, dtypes=None if profile != "luts" else ("int8", "int8", "uint8", "int16"))
+    lut = profile in ("luts", "lutmix")
+    base = e2e.case_strategy(profile, max_ops=6 if not lut else 14, big=not lut, small_arena=True, dtypes=None if not lut else ("int8", "int8", "uint8", "int16"))
     run_hypothesis(rec, st.builds(lambda c: dict(c, kind="c03"), base), oracle, n, sub_seed(ctx.seed, PROPERTY, profile, shard))
 
 
@@ -403,6 +404,7 @@ def parts(ctx):
     ps = [Part("tagged-npu%02d" % i, tagged, ("npu", i, 22 if q else 700)) for i in range(8)]
     ps += [Part("tagged-cascade%02d" % i, tagged, ("cascade", i, 10 if q else 300)) for i in range(4)]
     ps += [Part("tagged-luts%02d" % i, tagged, ("luts", i, 10 if q else 300)) for i in range(2)]
+    ps += [Part("tagged-lutmix%02d" % i, tagged, ("lutmix", i, 12 if q else 300)) for i in range(2)]
     ps += [Part("tagged-fanout%02d" % i, tagged, ("fanout", i, 16 if q else 500)) for i in range(4)]
     ps += [Part("poison-fanout%02d" % i, poison, ("fanout", i, 8 if q else 300)) for i in range(2)]
     ps += [Part("poison%02d" % i, poison, (["cascade", "exact", "slices", "mixed", "approx", "convs"][i % 6], i, 8 if q else 300)) for i in range(6)]
